@@ -78,11 +78,11 @@ class TV:
         self.workdir = tempfile.mkdtemp(dir=os.path.join(build.VERIF, 'build'))
     def close(self): shutil.rmtree(self.workdir, ignore_errors=True)
 
-    def run_binary(self, c, symw, inputs, base_pc, max_instr=2000, max_paths=64, monitor=True):
+    def run_binary(self, c, symw, inputs, base_pc, max_instr=2000, max_paths=64, monitor=True, deadline=None):
         """Processor::run on the image; symw: {word index: z3 term}; inputs: list of 8-bit terms.
         Returns (engine, results) where each result has .st.x['mon'] (monitor findings) and .st.x['trace'] (pcs)"""
         sim = self.sim; E = sim.engine()
-        E.max_steps = 120 * max_instr + 20000; E.max_paths = max_paths * 4; E.concretize_stores = True
+        E.max_steps = 120 * max_instr + 20000; E.max_paths = max_paths * 4; E.concretize_stores = True; E.deadline = deadline; E.solver.set('timeout', 30000)
         st = State(); st.pc = list(base_pc)
         over = {i: w for i, w in enumerate(c.words)}
         over.update(symw)
@@ -154,7 +154,7 @@ def event_diffs(bev, rev):
             else: diffs.append(bv(u, 32) != bv(v, 32))
     return diffs
 
-def validate(tv, src, nsym=2, nin=1, max_instr=2000, max_paths=64, want_calls=False):
+def validate(tv, src, nsym=2, nin=1, max_instr=2000, max_paths=64, want_calls=False, deadline=None):
     """translation validation of one program. Returns dict(status, paths, findings, excluded, cut, ...)"""
     t0 = time.time()
     out = dict(src=src, findings=[], ref_paths=0, bin_paths=0, excluded=0, cut=0, queries=0, solver_s=0.0, steps=0, obligations=0, discharged=0, monitor=[])
@@ -172,7 +172,7 @@ def validate(tv, src, nsym=2, nin=1, max_instr=2000, max_paths=64, want_calls=Fa
             out['status'] = 'layout-assumption-failed'; return out
         symw[2 + i] = syms[f's{i}']
     try:
-        refs = xref.explore(src, syms, inputs, max_paths=max_paths)
+        refs = xref.explore(src, syms, inputs, max_paths=max_paths, deadline=deadline)
     except (xref.XSyntax, xref.Undefined) as e:
         out['status'] = 'reference-rejects: ' + str(e); return out
     out['status'] = 'validated'
@@ -182,7 +182,8 @@ def validate(tv, src, nsym=2, nin=1, max_instr=2000, max_paths=64, want_calls=Fa
             if rp['status'].startswith('budget'): out['cut'] += 1
             else: out['excluded'] += 1
             continue
-        E, rs = tv.run_binary(c, symw, inputs, rp['pc'], max_instr, max_paths)
+        if deadline is not None and time.time() > deadline: out['cut'] += 1; continue
+        E, rs = tv.run_binary(c, symw, inputs, rp['pc'], max_instr, max_paths, deadline=deadline)
         for r in rs:
             out['bin_paths'] += 1
             if r.kind == 'budget': out['cut'] += 1; continue
